@@ -278,6 +278,10 @@ pub fn run_c12(ctx: &Ctx) -> i32 {
         }
         acc.inc("a_rows");
     });
+    let bind = crate::sprops::c12_binding(ctx);
+    acc.merge(bind);
+    acc.violations
+        .sort_by(|a, b| (a.key.as_str(), a.what.as_str()).cmp(&(b.key.as_str(), b.what.as_str())));
     let branches = acc.hist.get("branch").map(|h| h.len()).unwrap_or(0);
     if acc.samples.is_empty() {
         acc.sample(json!({"a": agrid[0], "p": 0.5}));
@@ -286,12 +290,12 @@ pub fn run_c12(ctx: &Ctx) -> i32 {
     extra.insert("branches_populated".into(), json!(branches));
     let fin = Finish {
         level: "exploration",
-        rule: "deterministic (a,p) lattice: log-spaced a plus ulp-neighbours of 0.05, 0.3, 1±1e-8, 1, 100; p = 0, 2^-k, 1-2^-k, i/n, 10^-e, 1-10^-e and per-a the p placing b=(1-p)Γ(a) on every start-value threshold ±2 ulp; every point is a distinct input; non-trivial = points where the accuracy clause was judged (true quantile >= 1e-13)".into(),
+        rule: "deterministic (a,p) lattice: log-spaced a plus ulp-neighbours of 0.05, 0.3, 1±1e-8, 1, 100; p = 0, 2^-k, 1-2^-k, i/n, 10^-e, 1-10^-e and per-a the p placing b=(1-p)Γ(a) on every start-value threshold ±2 ulp; every point is a distinct input; non-trivial = points where the accuracy clause was judged (true quantile >= 1e-13); plus the sampler binding: samples over the p alphabet whose metadata lambda must satisfy the same relation for (dod, coordinate 2E-2)".into(),
         states: 0,
         transitions: 0,
         traces: 0,
-        evaluations: acc.get("evaluations"),
-        distinct_nontrivial: acc.get("accuracy_judged"),
+        evaluations: acc.get("evaluations") + acc.get("binding_points"),
+        distinct_nontrivial: acc.get("accuracy_judged") + acc.get("binding_judged"),
         exhaustive: true,
         bounds: json!({"a_values": agrid.len(), "a_range": [0.05, 100.0], "max_iter": 50, "epsilon_tolerance": 5.0}),
         assumptions: vec!["reference P(a,x), Q(a,x) by series / Lentz continued fraction with libm lgamma (unit-tested against closed forms)".into()],
